@@ -251,6 +251,9 @@ def run(ctx: Ctx) -> None:
             if op in ("linear", "matmul", "conv1d", "add") and i % 4 == 1:
                 # the scale factors are functions of the shapes, not of the dtype the operands arrive in
                 for dt_ in (torch.float16, torch.bfloat16):
+                    if not ops.reference_survives(case, ops.make_inputs(case, i + 1, dt_)):
+                        ctx.bump(f"torch-kernel-crash-skipped/{dt_}")
+                        continue
                     mh = None
                     with ctx.guard(f"C03:{op}:call", {**key, "dtype": str(dt_)}):
                         mh = ops.measure(U, case, i + 1, i + 3, dtype=dt_)
